@@ -131,8 +131,14 @@ def grow(ctx: Ctx, rep: Report) -> None:
     d = ctx.fn(f'{GRAPH}:CouplingGraph.get_subgraphs_of_size')
     rep.seen(d.qualname)
     rep.count()
+    nq = {'self.num_qudits'} | {
+        s.targets[0].id for s in ast.walk(d.node)
+        if isinstance(s, ast.Assign) and len(s.targets) == 1
+        and isinstance(s.targets[0], ast.Name)
+        and norm(s.value) == 'self.num_qudits'
+    }
     starts = [lp for lp in ast.walk(d.node) if isinstance(lp, ast.For)
-              and norm(lp.iter) == 'range(self.num_qudits)'
+              and norm(lp.iter) in {f'range({x})' for x in nq}
               and any(isinstance(c, ast.Call) and norm(
                   c.func) == 'self._location_search' and len(c.args) == 4
                   and norm(c.args[2]) == norm(lp.target)
